@@ -1213,15 +1213,27 @@ def secWrites (c : Cls) (enc : Enc) (shoff : BitVec 64) (shentsize : BitVec 16) 
 def segWrite (c : Cls) (enc : Enc) (phoff : BitVec 64) (phentsize : BitVec 16) (g : Seg) : Nat × Bytes :=
   (phoff.toNat + phentsize.toNat * g.index, encodePhdr c enc g)
 
+/-- the data of the section are written by `save` -/
+def secWritten (b : SecBuf) : Bool :=
+  b.stype != BitVec.ofNat 32 SHT_NOBITS && b.stype != BitVec.ofNat 32 SHT_NULL && b.size != 0 && b.data.isSome
+
 theorem saveSection_eq (c : Cls) (enc : Enc) (shoff : BitVec 64) (se : BitVec 16) (os : OStream) (b : SecBuf)
-    (hs : shoff.toNat < 9223372036854775808) (ho : b.offset.toNat < 9223372036854775808) :
+    (hs : shoff.toNat < 9223372036854775808) (ho : secWritten b = true → b.offset.toNat < 9223372036854775808) :
     saveSection c enc shoff se os b = applyWrites os (secWrites c enc shoff se b) := by
   unfold saveSection secWrites applyWrites
   have e1 : shoff.toInt + Int.ofNat se.toNat * Int.ofNat b.index = ((shoff.toNat + se.toNat * b.index : Nat) : Int) := by
     rw [toInt_of_lt shoff hs]
     simp only [Int.ofNat_eq_natCast, Int.natCast_add, Int.natCast_mul]
-  simp only [e1, toInt_of_lt b.offset ho]
-  split <;> rfl
+  simp only [e1]
+  by_cases hw : secWritten b = true
+  · have hw' := hw
+    unfold secWritten at hw'
+    rw [if_pos hw', if_pos hw', toInt_of_lt b.offset (ho hw)]
+    rfl
+  · have hw' := hw
+    unfold secWritten at hw'
+    rw [if_neg hw', if_neg hw']
+    rfl
 
 theorem saveSegment_eq (c : Cls) (enc : Enc) (phoff : BitVec 64) (pe : BitVec 16) (os : OStream) (g : Seg)
     (hs : phoff.toNat < 9223372036854775808) :
@@ -1239,7 +1251,7 @@ theorem applyWrites_append (s : OStream) (a b : List (Nat × Bytes)) :
 
 theorem foldl_saveSection_eq (c : Cls) (enc : Enc) (shoff : BitVec 64) (se : BitVec 16) (secs : List SecBuf)
     (os : OStream) (hs : shoff.toNat < 9223372036854775808)
-    (ho : ∀ b ∈ secs, b.offset.toNat < 9223372036854775808) :
+    (ho : ∀ b ∈ secs, secWritten b = true → b.offset.toNat < 9223372036854775808) :
     secs.foldl (saveSection c enc shoff se) os = applyWrites os (secs.flatMap (secWrites c enc shoff se)) := by
   induction secs generalizing os with
   | nil => rfl
@@ -1286,7 +1298,7 @@ theorem tailOs_eq (o : Obj) (os : OStream) (h0 : Bytes) (segs1 : List Seg) (lay 
     (hg : os.Good) (htr : o.trans = [])
     (hs : (Hdr.e_shoff o.cls o.enc (tailHdr o h0 segs1 lay done)).toNat < 9223372036854775808)
     (hp : (Hdr.e_phoff o.cls o.enc (tailHdr o h0 segs1 lay done)).toNat < 9223372036854775808)
-    (ho : ∀ b ∈ tailSecs o segs1 lay done, b.offset.toNat < 9223372036854775808) :
+    (ho : ∀ b ∈ tailSecs o segs1 lay done, secWritten b = true → b.offset.toNat < 9223372036854775808) :
     tailOs o os h0 segs1 lay done =
       applyWrites os (objWrites o.cls o.enc (tailHdr o h0 segs1 lay done) (tailSecs o segs1 lay done)
         (tailSegs segs1 done)) := by
